@@ -886,8 +886,112 @@ def g4_hidden_state(prog: Program, run: Run, rule: str, patterns: Sequence[str])
                                   "computed from the state of the object: after the object (or "
                                   "the database behind it, e.g. by refresh()) changes, the stale "
                                   "value is reported", f.loc, d)
+    n += _m5_derived_index(prog, run, rule, patterns)
     run.ok(rule, "scope", f"{n} functions: no mutable default that is written, no memo keyed by a "
-           "name, no lazily cached value that ignores an argument, no memoised method", "odxtools/")
+           "name, no lazily cached value that ignores an argument, no memoised method, no index "
+           "derived from a list that is extended afterwards", "odxtools/")
+    return n
+
+
+def _self_attr(e: ast.AST, aliases: Dict[str, str]) -> Optional[str]:
+    if isinstance(e, ast.Attribute) and isinstance(e.value, ast.Name) and e.value.id == "self":
+        return aliases.get(e.attr, e.attr)
+    return None
+
+
+_INIT_PHASES = ["__init__", "__post_init__", "_build_odxlinks", "_resolve_odxlinks",
+                "_finalize_init", "_resolve_snrefs"]
+
+
+def _m5_derived_index(prog: Program, run: Run, rule: str, patterns: Sequence[str]) -> int:
+    """(M5) an attribute A of an object that is derived from a list attribute B of the same
+    object (a dict / set / list built by iterating self.B) while B is appended to afterwards --
+    in another method, or later in the same one -- without A being updated there: lookups
+    through A miss the later elements."""
+    n = 0
+    for ci in prog.classes.values():
+        if not in_scope(ci.module.rel, patterns):
+            continue
+        # trivial property aliases: self.dtcs -> self._dtcs
+        aliases: Dict[str, str] = {}
+        for nm, m in ci.methods.items():
+            if m.is_property:
+                rets = [r for r in walk_no_nested(m.node) if isinstance(r, ast.Return)]
+                if len(rets) == 1 and isinstance(rets[0].value, ast.Attribute) and isinstance(
+                        rets[0].value.value, ast.Name) and rets[0].value.value.id == "self":
+                    aliases[nm] = rets[0].value.attr
+        derived: List[Tuple[str, str, FuncInfo, ast.AST]] = []  # (A, B, method, node)
+        mutated: Dict[str, List[Tuple[FuncInfo, ast.AST]]] = {}
+        for m in ci.methods.values():
+            n += 1
+            for x in walk_no_nested(m.node):
+                # B.append(...) etc.
+                if isinstance(x, ast.Call) and isinstance(x.func, ast.Attribute) and \
+                        x.func.attr in ("append", "extend", "insert", "add", "update") and \
+                        (b := _self_attr(x.func.value, aliases)) is not None:
+                    mutated.setdefault(b, []).append((m, x))
+                if isinstance(x, ast.AugAssign) and (b := _self_attr(x.target, aliases)):
+                    mutated.setdefault(b, []).append((m, x))
+                # A = <something iterating self.B>
+                if isinstance(x, (ast.Assign, ast.AnnAssign)) and x.value is not None:
+                    tgt = x.targets[0] if isinstance(x, ast.Assign) else x.target
+                    a = _self_attr(tgt, {})
+                    if a is None:
+                        continue
+                    for c in ast.walk(x.value):
+                        if isinstance(c, ast.comprehension) and (
+                                b := _self_attr(c.iter, aliases)) is not None and b != a:
+                            derived.append((a, b, m, x))
+                # for v in self.B: self.A[...] = ... / self.A.add(...)
+                if isinstance(x, ast.For) and (b := _self_attr(x.iter, aliases)) is not None:
+                    for y in ast.walk(x):
+                        a = None
+                        if isinstance(y, ast.Subscript) and isinstance(y.ctx, ast.Store):
+                            a = _self_attr(y.value, {})
+                        if isinstance(y, ast.Call) and isinstance(y.func, ast.Attribute) and \
+                                y.func.attr in ("append", "add", "setdefault"):
+                            a = _self_attr(y.func.value, {})
+                        if a is not None and aliases.get(a, a) != b:
+                            derived.append((a, b, m, x))
+        for a, b, m, node in derived:
+            for mm, site in mutated.get(b, []):
+                if mm is m:
+                    later = site.lineno > getattr(node, "end_lineno", node.lineno)
+                else:
+                    # only the phases of the initialisation protocol have a fixed order; a public
+                    # mutator followed by a documented recomputation (Database.add_odx_file /
+                    # refresh) is the caller's business
+                    later = m.name in _INIT_PHASES and mm.name in _INIT_PHASES and \
+                        _INIT_PHASES.index(mm.name) > _INIT_PHASES.index(m.name)
+                if not later:
+                    continue
+                if mm is m and any(site is y for y in ast.walk(node)):
+                    continue
+                # the mutating method keeps A in step
+                keeps = any(
+                    (isinstance(y, ast.Subscript) and isinstance(y.ctx, ast.Store) and
+                     _self_attr(y.value, {}) == a) or
+                    (isinstance(y, ast.Call) and isinstance(y.func, ast.Attribute) and
+                     y.func.attr in ("append", "add", "setdefault", "update") and
+                     _self_attr(y.func.value, {}) == a) or
+                    (isinstance(y, (ast.Assign, ast.AnnAssign)) and _self_attr(
+                        y.targets[0] if isinstance(y, ast.Assign) else y.target, {}) == a and
+                     (mm is not m or y.lineno > site.lineno))
+                    for y in walk_no_nested(mm.node))
+                if mm is m:
+                    keeps = any(
+                        isinstance(y, (ast.Assign, ast.AnnAssign, ast.For)) and y is not node and
+                        y.lineno > site.lineno and any(
+                            _self_attr(z, {}) == a for z in ast.walk(y))
+                        for y in walk_no_nested(m.node))
+                if keeps:
+                    continue
+                run.violation(rule, f"{ci.module.rel}:{ci.name}", f"derived-index-stale-{a}",
+                              f"self.{a} is derived from self.{b} in {m.qual} "
+                              f"(line {node.lineno}), but {mm.qual} extends self.{b} afterwards "
+                              f"(line {site.lineno}) without touching self.{a}: lookups through "
+                              f"self.{a} do not see those elements",
+                              f"{ci.module.rel}:{node.lineno}", a)
     return n
 
 
